@@ -251,6 +251,26 @@ func SignatureCase(c *Case) M {
 		cl, err := rp.VerifyIDToken[*oidc.IDTokenClaims](context.Background(), token, rp.NewIDTokenVerifier(sigIssuer, "cid", ks, opts...))
 		return asMap(cl), err
 	})
+	judge("rpDisc", func() (M, error) {
+		// the ID-token algorithms the provider advertises = the case's allowed list; every other algorithm list of the document differs from it
+		others := []string{"RS256", "PS256", "RS384", "ES256", "EdDSA", "HS256"}
+		doc := M{"issuer": sigIssuer, "authorization_endpoint": sigIssuer + "/authorize", "token_endpoint": sigIssuer + "/token", "jwks_uri": sigIssuer + "/keys",
+			"token_endpoint_auth_signing_alg_values_supported": others, "request_object_signing_alg_values_supported": others,
+			"userinfo_signing_alg_values_supported": others, "introspection_endpoint_auth_signing_alg_values_supported": others,
+			"revocation_endpoint_auth_signing_alg_values_supported": others}
+		if allowed != nil {
+			doc["id_token_signing_alg_values_supported"] = allowed
+		}
+		disc, _ := json.Marshal(doc)
+		hc := &http.Client{Transport: docTransport{"/.well-known/openid-configuration": disc, "/keys": jb}}
+		party, err := rp.NewRelyingPartyOIDC(context.Background(), sigIssuer, "cid", "", "https://rp.example.test/cb", []string{"openid"},
+			rp.WithHTTPClient(hc), rp.WithVerifierOpts(rp.WithNonce(nil)), rp.WithSigningAlgsFromDiscovery())
+		if err != nil {
+			panic("harness: " + err.Error())
+		}
+		cl, err := rp.VerifyIDToken[*oidc.IDTokenClaims](context.Background(), token, party.IDTokenVerifier())
+		return asMap(cl), err
+	})
 	opks := &op.OpenIDKeySet{Storage: keysOnlyStorage{keys: opKeys}}
 	judge("at", func() (M, error) {
 		var opts []op.AccessTokenVerifierOpt
